@@ -67,6 +67,16 @@ func (fc *FuncContract) GoCheck(i int, argVars, resVars []string) (pre []string,
 		case *ast.BinaryExpr:
 			return &ast.BinaryExpr{X: tr(n.X, inOld), Op: n.Op, Y: tr(n.Y, inOld)}
 		case *ast.CallExpr:
+			if sel, isSel := n.Fun.(*ast.SelectorExpr); isSel {
+				// spec.F(args): the executable specification function itself (the replay imports verif/spec)
+				if px, ok := sel.X.(*ast.Ident); ok && px.Name == "spec" {
+					var as []ast.Expr
+					for _, a := range n.Args {
+						as = append(as, tr(a, inOld))
+					}
+					return &ast.CallExpr{Fun: sel, Args: as}
+				}
+			}
 			id, isId := n.Fun.(*ast.Ident)
 			if !isId {
 				okAll = false
